@@ -800,6 +800,10 @@ func (c *oblCtx) idxBound(i string, of ast.Expr) (string, bool) {
 				return "I3: index parameter of a sort.Interface method on the field Len() measures", true
 			}
 			if c.sameLen(of, f.idxOf) {
+				// an upper bound is half of the obligation when the index is a search result: -1 passes `i < len`
+				if src := c.mayBeNegative(i); src != "" && !c.nonNegative(i) {
+					continue
+				}
 				return "I1: index bounded by len(" + f.idxOf + ")", true
 			}
 			// the index ranges over a slice that was made with exactly len(of) elements
@@ -879,6 +883,48 @@ func (c *oblCtx) foundIndex(i string, of ast.Expr) (string, bool) {
 		}
 	}
 	return "", false
+}
+
+// mayBeNegative: the local variable i is defined (somewhere in the function) from a search that answers -1 when
+// nothing is found. Returns the name of that search, "" otherwise.
+func (c *oblCtx) mayBeNegative(i string) string {
+	if c.fn == nil {
+		return ""
+	}
+	src := ""
+	ast.Inspect(c.fn, func(x ast.Node) bool {
+		as, ok := x.(*ast.AssignStmt)
+		if !ok || len(as.Lhs) != len(as.Rhs) {
+			return true
+		}
+		for k, l := range as.Lhs {
+			id := identOf(l)
+			if id == nil || id.Name != i {
+				continue
+			}
+			if call, ok := ast.Unparen(as.Rhs[k]).(*ast.CallExpr); ok {
+				full := fullName(calleeOf(c.info(), call))
+				for _, pre := range []string{"slices.Index", "strings.Index", "strings.LastIndex", "bytes.Index", "bytes.LastIndex"} {
+					if strings.HasPrefix(full, pre) {
+						src = full
+					}
+				}
+			}
+		}
+		return true
+	})
+	return src
+}
+
+// nonNegative: a dominating fact excludes the negative values of i.
+func (c *oblCtx) nonNegative(i string) bool {
+	for _, f := range c.facts {
+		switch f.holds {
+		case i + " >= 0", i + " != -1", "!(" + i + " == -1)", "!(" + i + " < 0)", i + " > -1", "!(" + i + " <= -1)":
+			return true
+		}
+	}
+	return false
 }
 
 func (c *oblCtx) obligIndex(n *ast.IndexExpr) {
